@@ -112,6 +112,9 @@ Lemma fr_set_corr f0 v s : corr (fst (set_scalar f0 v s)) = corr s. Proof. apply
 Lemma fr_set_prog f0 v s : prog (fst (set_scalar f0 v s)) = prog s. Proof. apply (fr_set_misc f0 v s). Qed.
 Lemma fr_set_ps f0 v s : ps (fst (set_scalar f0 v s)) = ps s.      Proof. apply (fr_set_misc f0 v s). Qed.
 Lemma fr_set_ptyn f0 v s : ptyn (fst (set_scalar f0 v s)) = ptyn s. Proof. apply (fr_set_misc f0 v s). Qed.
+Lemma fr_set_rt0 f0 v s : rt0 (fst (set_scalar f0 v s)) = rt0 s.   Proof. apply (fr_set_misc f0 v s). Qed.
+Lemma fr_set_rt1 f0 v s : rt1 (fst (set_scalar f0 v s)) = rt1 s.   Proof. apply (fr_set_misc f0 v s). Qed.
+Lemma fr_set_last f0 v s : last_rt (fst (set_scalar f0 v s)) = last_rt s. Proof. apply (fr_set_misc f0 v s). Qed.
 Lemma fr_set_aft f0 v s : d_af (temp (fst (set_scalar f0 v s))) = d_af (temp s). Proof. apply (fr_set_misc f0 v s). Qed.
 Lemma fr_set_afu f0 v s : d_af (used (fst (set_scalar f0 v s))) = d_af (used s). Proof. apply (fr_set_misc f0 v s). Qed.
 
@@ -121,14 +124,14 @@ Ltac frames_in H :=
     | match type of H with context [getf ?f (used (fst (set_scalar ?f0 ?v ?s)))] => rewrite (fr_set_used f f0 v s) in H by discriminate end
     | rewrite fr_set_ext in H | rewrite fr_set_cb in H | rewrite fr_set_ud in H | rewrite fr_set_corr in H
     | rewrite fr_set_prog in H | rewrite fr_set_ps in H | rewrite fr_set_ptyn in H | rewrite fr_set_aft in H
-    | rewrite fr_set_afu in H ].
+    | rewrite fr_set_afu in H | rewrite fr_set_rt0 in H | rewrite fr_set_rt1 in H | rewrite fr_set_last in H ].
 Ltac frames :=
   repeat first
     [ match goal with |- context [getf ?f (temp (fst (set_scalar ?f0 ?v ?s)))] => rewrite (fr_set_temp f f0 v s) by discriminate end
     | match goal with |- context [getf ?f (used (fst (set_scalar ?f0 ?v ?s)))] => rewrite (fr_set_used f f0 v s) by discriminate end
     | rewrite fr_set_ext | rewrite fr_set_cb | rewrite fr_set_ud | rewrite fr_set_corr
     | rewrite fr_set_prog | rewrite fr_set_ps | rewrite fr_set_ptyn | rewrite fr_set_aft
-    | rewrite fr_set_afu ].
+    | rewrite fr_set_afu | rewrite fr_set_rt0 | rewrite fr_set_rt1 | rewrite fr_set_last ].
 
 (* the translated call of a setter at a state st reached by earlier setters, whose arguments the C
    code still names by the members of the state before them *)
